@@ -289,7 +289,7 @@ def main():
                                   % (rows[bad["id"]], ",".join(bad["clauses"]), ["".join(x) for x in bad["expected"]], p),
                                   {"point": cmeta[bad["id"]], "row": rows[bad["id"]]}, tags=classify(p) | {"row"} | set(bad["clauses"]))
         # ---- breadth: seeded random points ------------------------------------------------------------
-        n_rand = 20000 if thorough else 3000
+        n_rand = 60000 if thorough else 3000
         for di, dialect in enumerate(DIALECTS):
             batch = []
             for i in range(n_rand // len(DIALECTS)):
